@@ -16,6 +16,7 @@ import random
 from typing import Any, Dict, List, Optional, Tuple
 
 EVENTS = ["E1", "E2", "E3"]
+SPIN_LIMIT = 300   # events processed by one async run before the harness breaks a never-idle run loop
 KEYS = ["a", "ab", "b", "a1", "c", "abc"]
 
 
@@ -95,6 +96,8 @@ class Gen:
                 continue
             cfg["entry"] = [f"en:{path}"]
             cfg["exit"] = [f"ex:{path}"]
+            if path != "m" and rng.random() < self.p("missing_impl", 0.0):
+                cfg[rng.choice(["entry", "exit"])].append(f"nope:{path}!missing")
             if kind == "final":
                 if rng.random() < 0.3:
                     cfg["output"] = {"from": path}
@@ -111,7 +114,12 @@ class Gen:
             if on:
                 cfg["on"] = on
             if kind in ("compound", "parallel") and path != "m" and rng.random() < 0.5:
-                cfg["onDone"] = self.transition(path, targets, "done")
+                # an onDone that re-enters its own completed state re-completes it for ever
+                # (a known finding of C13 on the async engine): only the C13 driver asks for it
+                outside = [t for t in targets if not (t == path or t.startswith(path + ".") or path.startswith(t + "."))] or [t for t in targets if self.kinds.get(t) == "atomic"] or targets
+                cfg["onDone"] = self.transition(path, outside if not self.p("ondone_self", 0) else targets, "done")
+                if not self.p("ondone_self", 0) and cfg["onDone"].get("target", "").lstrip("#") in ("", path):
+                    cfg["onDone"]["target"] = "#" + rng.choice(outside)
             if kind == "atomic" and rng.random() < self.p("always", 0.12):
                 t = self.transition(path, targets, "always")
                 t["guard"] = rng.choice(["gF", "gOdd", "gF"])
@@ -136,6 +144,8 @@ class Gen:
             t["target"] = "#" + rng.choice(targets)
         if rng.random() < 0.5:
             t["actions"] = [f"act:{source}:{ev}:{rng.randint(0, 9)}"]
+            if rng.random() < self.p("missing_impl", 0.0):
+                t["actions"].append(f"nope:{source}:{ev}!missing")
             if rng.random() < self.p("raise", 0.15):
                 t["actions"].append({"type": "xstate.raise", "params": {"event": {"type": rng.choice(EVENTS)}}})
             if rng.random() < 0.2:
@@ -185,7 +195,7 @@ def make_logic(config, trace: Trace, faults=None):
     collect(config)
     actions = {}
     for n in names:
-        if not isinstance(n, str) or n.startswith("xstate.") or n == "inc":
+        if not isinstance(n, str) or n.startswith("xstate.") or n == "inc" or n.endswith("!missing"):
             continue
 
         def act(i, ctx, ev, ad, _n=n):
@@ -224,7 +234,8 @@ def run_sync(config, events, faults=None, observer=None):
     try:
         it.start()
     except Exception as e:
-        errs.append(("start", type(e).__name__))
+        # the library refused to start this machine: out of the properties' scope from here on
+        return {"steps": [], "actions": list(tr.actions), "errors": [("start", type(e).__name__)], "interp": it, "start_failed": True}
     steps.append(snapshot_of(it))
     for ev in events:
         try:
@@ -243,22 +254,34 @@ def run_sync(config, events, faults=None, observer=None):
 def run_async(config, events, faults=None):
     from xstate_statemachine import Interpreter, create_machine
 
+    class Spin(BaseException):
+        """raised by the harness to get out of a run loop that never idles (C13 finding)"""
+
     async def go():
         tr = Trace()
         m = create_machine(copy.deepcopy(config), logic=make_logic(config, tr, faults))
         it = Interpreter(m)
         steps, errs = [], []
+        count = {"n": 0}
+        orig = it._process_event
+
+        async def counted(ev):
+            count["n"] += 1
+            if count["n"] > SPIN_LIMIT:
+                raise Spin()
+            return await orig(ev)
+        it._process_event = counted
         try:
             await it.start()
         except Exception as e:
-            errs.append(("start", type(e).__name__))
+            return {"steps": [], "actions": list(tr.actions), "errors": [("start", type(e).__name__)], "start_failed": True, "spin": False}
         await drain(it)
         steps.append(snapshot_of(it))
         for ev in events:
             await it.send(ev)
             await drain(it)
             steps.append(snapshot_of(it))
-        res = {"steps": steps, "actions": list(tr.actions), "errors": errs}
+        res = {"steps": steps, "actions": list(tr.actions), "errors": errs, "spin": count["n"] > SPIN_LIMIT}
         try:
             await it.stop()
         except Exception:
@@ -268,6 +291,9 @@ def run_async(config, events, faults=None):
     async def drain(it):
         for _ in range(200):
             await asyncio.sleep(0)
+            t = it._event_loop_task
+            if t is not None and t.done():
+                break
             if it._event_queue.empty() and not it._processing:
                 break
     return asyncio.run(asyncio.wait_for(go(), 20))
